@@ -27,3 +27,17 @@ CONTRACTS[F + "sliding_windows"] = dict(
         "unchanged(sequence)",
     ],
 )
+
+
+def _gen_sw(rng):
+    import numpy as np
+    width = rng.choice([1, 2, 3, 4])
+    pad = rng.choice([0, 0, 1, 2])
+    L = rng.randint(max(0, width - 2 * pad), width + 6)
+    sample = np.array(sorted(rng.sample(range(width), rng.randint(1, width))), dtype=np.int64)
+    return dict(sequence=np.array([float(rng.randint(-3, 9)) for _ in range(L)]), width=width, stride=rng.choice([1, 2, 3]), sample=sample,
+                kernel=(lambda w: np.asarray(w, dtype=np.float64).flatten()), kernel_output_size=len(sample), kernel_output_dtype=np.float64,
+                pad_width=pad, pad_value=float(rng.choice([0, 7])))
+
+
+CONTRACTS[F + "sliding_windows"]["gen_all"] = _gen_sw
